@@ -46,6 +46,7 @@ K = {
  "iv StrList.LessThan":    ("pkg/objects/str_list.go",     "GoCode_StrListSeek_proofs.v"),
  "vi BlockIndex.Get":      ("pkg/objects/block_index.go",  "GoCode_BlockIndexGet_proofs.v"),
  "vii addToFanoutTable":   ("pkg/index/fanout.go",         "GoCode_Fanout_proofs.v"),
+ "ii StrListEncoder.Encode": ("pkg/objects/str_list.go",   "GoCode_StrListEncode_proofs.v"),
 }
 # (kernel, kind, description, old text, new text)   old must occur exactly once inside the file
 M = [
@@ -170,6 +171,14 @@ M = [
  ("vii addToFanoutTable", "keep", "rename variables", None, [("\tm := map[byte]uint32{}\n\tfor _, b := range hashes {\n\t\tm[b[0]]++\n\t}\n\tfor b, u := range m {", "\tcounts := map[byte]uint32{}\n\tfor _, sum := range hashes {\n\t\tcounts[sum[0]]++\n\t}\n\tfor b, u := range counts {")]),
  ("vii addToFanoutTable", "keep", "m[b[0]] += 1", "\t\tm[b[0]]++\n", "\t\tm[b[0]] += 1\n"),
  ("vii addToFanoutTable", "keep", "fanout[k] = fanout[k] + u", "\t\t\tfanout[k] += u\n", "\t\t\tfanout[k] = fanout[k] + u\n"),
+ ("ii StrListEncoder.Encode", "break", "uint16 offset (the old defect)", None, [("\toffset := 4\n\tfor _, s := range sl {\n\t\tif len(s) > MaxStrLen {", "\tvar offset uint16 = 4\n\tfor _, s := range sl {\n\t\tif len(s) > MaxStrLen {"), ("\t\tcopy(e.buf[offset:], s)\n\t\toffset += len(s)\n", "\t\tcopy(e.buf[offset:], s)\n\t\toffset += uint16(len(s))\n")]),
+ ("ii StrListEncoder.Encode", "break", "cell guard >= MaxStrLen", "\t\tif len(s) > MaxStrLen {\n", "\t\tif len(s) >= MaxStrLen {\n"),
+ ("ii StrListEncoder.Encode", "break", "no cell guard", "\t\tif len(s) > MaxStrLen {\n\t\t\tpanic(fmt.Errorf(\"cell value %q is too long (%d > %d)\", s[:40]+\"...\", len(s), MaxStrLen))\n\t\t}\n", ""),
+ ("ii StrListEncoder.Encode", "break", "length prefix written after the cell", "\t\tbinary.BigEndian.PutUint16(e.buf[offset:], l)\n\t\toffset += 2\n\t\tcopy(e.buf[offset:], s)\n\t\toffset += len(s)\n", "\t\tcopy(e.buf[offset:], s)\n\t\toffset += len(s)\n\t\tbinary.BigEndian.PutUint16(e.buf[offset:], l)\n\t\toffset += 2\n"),
+ ("ii StrListEncoder.Encode", "break", "buffer one byte short", "\tbufLen := 4\n", "\tbufLen := 3\n"),
+ ("ii StrListEncoder.Encode", "keep", "rename variables", None, [("bufLen", "need"), ("\t\tl := uint16(len(s))\n\t\tbinary.BigEndian.PutUint16(e.buf[offset:], l)\n", "\t\tcellLen := uint16(len(s))\n\t\tbinary.BigEndian.PutUint16(e.buf[offset:], cellLen)\n")]),
+ ("ii StrListEncoder.Encode", "keep", "offset = offset + 2", "\t\tbinary.BigEndian.PutUint16(e.buf[offset:], l)\n\t\toffset += 2\n", "\t\tbinary.BigEndian.PutUint16(e.buf[offset:], l)\n\t\toffset = offset + 2\n"),
+ ("ii StrListEncoder.Encode", "keep", "no temporary for the length", "\t\tl := uint16(len(s))\n\t\tbinary.BigEndian.PutUint16(e.buf[offset:], l)\n", "\t\tbinary.BigEndian.PutUint16(e.buf[offset:], uint16(len(s)))\n"),
 ]
 def sh(cmd, cwd=None, timeout=900):
     t0 = time.time()
